@@ -172,6 +172,12 @@ pub enum FeCall {
 }
 
 /// Step-wise front end: the state kept between operations of one thread.
+/// What the `tracing` macros check first: the process-wide maximum level (the combined
+/// `max_level_hint` of the live dispatchers, recomputed whenever a dispatcher is created).
+fn level_enabled(meta: &Metadata<'_>) -> bool {
+    *meta.level() <= tracing_core::LevelFilter::current()
+}
+
 pub struct Runner {
     metas: Vec<&'static Metadata<'static>>,
     pub handles: Vec<Option<(Id, usize)>>,
@@ -218,7 +224,7 @@ impl Runner {
                         dispatch.register_callsite(meta);
                         log.push(FeCall::Register(*k));
                     }
-                    if !dispatch.enabled(meta) {
+                    if !level_enabled(meta) || !dispatch.enabled(meta) {
                         self.handles.push(None);
                     } else {
                         let (par, ptok) = self.resolve(parent);
@@ -279,7 +285,7 @@ impl Runner {
                         dispatch.register_callsite(meta);
                         log.push(FeCall::Register(*k));
                     }
-                    if dispatch.enabled(meta) {
+                    if level_enabled(meta) && dispatch.enabled(meta) {
                         let (par, ptok) = self.resolve(parent);
                         with_values(meta, vals, |vs| {
                             let event = match par {
